@@ -27,6 +27,8 @@ type Case struct {
 	T        vlib.Step   `json:"t"`
 	Ops      []string    `json:"ops"`      // 1..3 distinct of confirm | cancel | expiry | set
 	Schedule []int       `json:"schedule"` // choice among the parked operations at every scheduling step
+	// SameID: the competing TransactionSet re-uses the transaction id of T (clients may recycle ids)
+	SameID bool `json:"same_id,omitempty"`
 }
 
 func gen(t *rapid.T) *Case {
@@ -40,12 +42,13 @@ func gen(t *rapid.T) *Case {
 	c.Ops = append([]string{}, all[:rapid.IntRange(1, 3).Draw(t, "nops")]...)
 	sort.Strings(c.Ops)
 	c.Schedule = rapid.SliceOfN(rapid.IntRange(0, 5), 12, 12).Draw(t, "schedule")
+	c.SameID = rapid.IntRange(0, 2).Draw(t, "competitor-reuses-id") == 0
 	return c
 }
 
 var prop = vlib.Prop[*Case]{
 	ID: "C16",
-	Rule: "case = 0..2 confirmed prefix transactions + an applied transaction T + 1..3 distinct concurrent operations of {TransactionConfirm(T), TransactionCancel(T), rollback-timer expiry (timeout 40 ms), competing TransactionSet (dry run, 1.5 s context)} + a schedule: the operations run in their own goroutines and park at the yield points of hook H5 (confirm/cancel/set entry, manager lock taken in Confirm / Cancel / Rollback, timer fired, before the manager lock is requested in rollback, every registration attempt of the Set); the harness scheduler releases exactly one parked operation at a time as the drawn schedule says and treats an operation that neither parks nor finishes within 25 ms as blocked on a lock; " +
+	Rule: "case = 0..2 confirmed prefix transactions + an applied transaction T + 1..3 distinct concurrent operations of {TransactionConfirm(T), TransactionCancel(T), rollback-timer expiry (timeout 40 ms), competing TransactionSet (dry run, 1.5 s context, under its own or under T's transaction id)} + a schedule: the operations run in their own goroutines and park at the yield points of hook H5 (confirm/cancel/set entry, manager lock taken in Confirm / Cancel / Rollback, timer fired, before the manager lock is requested in rollback, every registration attempt of the Set); the harness scheduler releases exactly one parked operation at a time as the drawn schedule says and treats an operation that neither parks nor finishes within 25 ms as blocked on a lock; " +
 		"oracle = after all operations ended: not both Confirm and Cancel succeeded; the device saw at most one rollback call; Confirm succeeded -> no rollback call and the device holds the post-T configuration; Cancel succeeded -> exactly one and the pre-T configuration; neither -> exactly one iff the timer expired; the slot is free once T is resolved; Confirm / Cancel are not answered 'datastore locked' while the only other operation inside the datastore mutex is the waiting Set; no operation panics (a panic in the timer goroutine kills the process: case journal) and all operations end within 5 s; " +
 		"non-trivial = at least two operations were released alternately (the schedule switched between operations at least once) or the expiry raced with a client call; distinct = distinct (ops, schedule prefix actually used)",
 	Gen:  gen,
@@ -181,7 +184,11 @@ func Exec(c *Case) (nontrivial bool, labels []string, fail *vlib.Failure) {
 			if err != nil {
 				return err
 			}
-			_, err = h.DS.TransactionSet(sctx, "competitor", []*types.TransactionIntent{ti}, nil, time.Hour, true)
+			cid := "competitor"
+			if c.SameID {
+				cid = tid
+			}
+			_, err = h.DS.TransactionSet(sctx, cid, []*types.TransactionIntent{ti}, nil, time.Hour, true)
 			return err
 		})
 	}
@@ -306,7 +313,23 @@ func Exec(c *Case) (nontrivial bool, labels []string, fail *vlib.Failure) {
 							}
 						}
 					}
-					if len(others) == 1 && others[0] == "set" && !expiryOwnsManager {
+					// the rule is about a Set that waits for the slot of the still open T: not about a Set that already owns
+					// the slot (T resolved before), nor about a T that a finished confirm / cancel resolved already
+					setOwnsSlot := false
+					if ss := states["set"]; ss != nil {
+						for _, p := range ss.trace {
+							if p == "set:registered" {
+								setOwnsSlot = true
+							}
+						}
+					}
+					resolvedBefore := false
+					for _, o := range []string{"confirm", "cancel"} {
+						if os := states[o]; os != nil && o != op && os.done && os.err == nil && os.panicked == "" {
+							resolvedBefore = true
+						}
+					}
+					if len(others) == 1 && others[0] == "set" && !expiryOwnsManager && !setOwnsSlot && !resolvedBefore {
 						lockedWhileOnlySetInside = op
 					}
 				}
